@@ -1490,15 +1490,18 @@ def canonical_pair_clauses(ctx, b, src_sorted, src_dedup):
     # CANONICALISE idioms: ids.sort*() and ids.dedup*()  |  collecting the ids into a BTreeSet (sorted and duplicate-free at once)
     #                      |  the argument's type guarantees it (CANONICAL-SOURCE table)
     into_set = lambda c: (c.item in ('collect', 'from_iter') and 'BTreeSet<u64>' in c.name) or (c.item == 'from' and 'BTreeSet<u64> as' in c.name)
+    #                      |  the itertools adaptors `it.sorted*()` / `it.dedup*()` / `it.unique()` on the id stream (then collected)
+    it_sorted = lambda c: c.item in ('sorted', 'sorted_unstable', 'sorted_by', 'sorted_unstable_by', 'sorted_by_key', 'sorted_unstable_by_key') and 'Itertools' in (c.trait or c.name)
+    it_dedup = lambda c: c.item in ('dedup', 'dedup_by', 'unique') and 'Itertools' in (c.trait or c.name)
     by_type = False
-    if src_sorted and not dominating(lambda c: c.item in LEN_KEEPING[:7] or into_set(c)):
+    if src_sorted and not dominating(lambda c: c.item in LEN_KEEPING[:7] or into_set(c) or it_sorted(c)):
         viol = sorted_ids_invariant(ctx) if not src_dedup else []
         by_type = not viol
         out.append(('sorted', 'T-MUSTCALL', 'ok' if by_type else 'bad', 'relies on SortedIds being sorted, but %s build it without sorting' % viol[:3], b.site()))
     else:
-        okk = dominating(lambda c: c.item in LEN_KEEPING[:7] or into_set(c))
+        okk = dominating(lambda c: c.item in LEN_KEEPING[:7] or into_set(c) or it_sorted(c))
         out.append(('sorted', 'T-MUSTCALL', 'ok' if okk else 'bad', 'no call `ids.sort()` dominating every Ok-exit', b.site()))
-    okk = src_dedup or dominating(lambda c: c.item in ('dedup', 'dedup_by', 'dedup_by_key') or into_set(c))
+    okk = src_dedup or dominating(lambda c: c.item in ('dedup', 'dedup_by', 'dedup_by_key') or into_set(c) or it_dedup(c))
     out.append(('dedup', 'T-MUSTCALL', 'ok' if okk else 'bad', 'no call `ids.dedup()` dominating every Ok-exit', b.site()))
     sh = PairShape(ctx, b)
     ok_lens, err_lens, pairs = sh.walk()
@@ -1595,7 +1598,9 @@ def pair_rules(ctx):
 # the "only binary variables are used" refusal reads Function::used_decision_variable_ids: its kernels
 # (every id field reaches the set on every path, also when the optional linear part is absent) are decided
 # by the C08.used-kernel family — re-decided here (seed C11-5)
-RELIES_ON = {'C08': ['C08.used-kernel']}
+RELIES_ON = {'C08': ['C08.used-kernel'],
+             # the exporters read the objective through `&Function: IntoIterator`: every stored term of Linear / Quadratic / Polynomial is yielded
+             'C02': ['C02.iter']}
 
 
 def check(ctx):
